@@ -1,7 +1,7 @@
 (* C05 — lemmas, part 4: reachable states satisfy the invariant; terminal states are good; refutation witness. *)
 From Coq Require Import List Bool Arith Lia.
 Import ListNotations.
-From GU Require Import C05.Model C05.Proofs C05.ProofsInv.
+From GU Require Import C05.Model C05.Proofs C05.ProofsInv C05.ProofsStart.
 
 Lemma run_inv : forall sched s, executes s = true -> ctxk (kmode s) = true -> no_outside_holder (prog s) = true -> Inv s ->
   Inv (run s sched) /\ executes (run s sched) = true /\ kmode (run s sched) = kmode s.
@@ -46,6 +46,21 @@ Proof.
   assert (He : executes (init sm km t) = true) by (destruct sm; auto; congruence).
   destruct (run_inv sched (init sm km t) He Hk Hok (inv_init sm km t)) as (I & E & K).
   apply terminal_good; auto. unfold s. rewrite K. exact Hk.
+Qed.
+
+(* all start modes x stop modes, except Stop()/Restart() on an Execute()d subprocess *)
+Lemma cancel_kills_group_full_l : forall sm km t sched,
+  supported sm km = true -> no_outside_holder t = true ->
+  let s := run (init sm km t) sched in terminal s -> fired s = true -> good s.
+Proof.
+  intros sm km t sched Hs Hok s T F.
+  destruct sm.
+  - assert (K : ctxk km = true) by (destruct km; simpl in *; auto; discriminate).
+    apply cancel_kills_group_l; auto; discriminate.
+  - destruct (runS_inv sched (init SStart km t) eq_refl Hok (invS_init SStart km t)) as (I & E).
+    apply terminalS_good; auto.
+  - assert (K : ctxk km = true) by (destruct km; simpl in *; auto; discriminate).
+    apply cancel_kills_group_l; auto; discriminate.
 Qed.
 
 (* Stop() on a subprocess started with Execute(): a reachable state in which nothing can move, the request has been
